@@ -55,6 +55,7 @@ fn main() {
                         None => continue,
                     };
                     writeln!(out, "{op}").unwrap();
+                    out.flush().unwrap();
                     match common::catch(|| scen.apply(&op)) {
                         Some(ls) => {
                             for l in ls {
@@ -63,6 +64,8 @@ fn main() {
                         }
                         None => writeln!(out, "> err harness_panic=1").unwrap(),
                     }
+                    // keep the trace file complete up to the last op even if the process is killed
+                    out.flush().unwrap();
                 }
             }
         }
